@@ -70,6 +70,9 @@ def run_maps(ctx, p):
         sig['element_type'] = 'unsigned' if p['itype'].startswith('u') else 'signed'
         vi = np.asarray(p['v']).astype(p['itype'])
         v = vi.astype(np.float64)
+        if p.get('iform') == 'scalars':      # the same whole numbers as a list of NumPy integer scalars (elements taken out of such an array)
+            vi = [x for x in vi]
+            sig['form'] = 'list of NumPy integers'
         sc = max(1.0, float(np.max(np.abs(v))))
     try:
         if p.get('itype') and which == 'vex_skew':
@@ -379,7 +382,7 @@ def run(ctx):
             hi_ = {'uint8': 256, 'uint16': 65536, 'uint64': 10 ** 6, 'int8': 128, 'int16': 32768, 'int64': 10 ** 6}[it]
             vi = rng.integers(0 if it[0] == 'u' else -hi_, hi_, size=n)      # (the most negative value of a signed type included)
             if np.any(vi):
-                drive(RUNNERS, ctx, 'maps', dict(which=which, v=[int(x) for x in vi], u=gen.vec(rng, n, 1e-2, 1e2), itype=it))
+                drive(RUNNERS, ctx, 'maps', dict(which=which, v=[int(x) for x in vi], u=gen.vec(rng, n, 1e-2, 1e2), itype=it, iform=['array', 'scalars'][rng.integers(2)]))
     for _ in range(ctx.scale(300, 6000)):
         n = int(rng.integers(2, 5))
         kinds, Ss = [], []
